@@ -3,6 +3,7 @@ package verifh
 import (
 	"errors"
 	"fmt"
+	"sync"
 	"testing"
 
 	otp "github.com/ja7ad/otp"
@@ -126,24 +127,71 @@ type c14InCase struct {
 	Sweep string      `json:"sweep"`
 }
 
-// mk returns a (shared, read-only) slice of length n; -1 = nil. Content varies with
-// fill over 4 patterns: admission depends on lengths only.
-var mkTab = func() [4][]byte {
-	var t [4][]byte
-	for k := range t {
-		t[k] = make([]byte, 70000)
-		for i := range t[k] {
-			t[k][i] = byte(k*85) + byte(i*7*k)
+// mk returns a (shared, read-only) slice of length n; -1 = nil. Admission depends on lengths only, so the CONTENT is
+// varied over 16 kinds — byte patterns, ASCII digits / letters / hex / base32 text, blanks, NUL, '=' and line breaks,
+// valid UTF-8 made of 2-, 3- and 4-byte characters (exactly n bytes long: shorter in characters than in bytes), a mix,
+// and invalid UTF-8 — a rule that looks at what the bytes say (characters, digits, trimmed text) admits differently.
+var mkCache sync.Map // [2]int{n, kind} -> []byte
+
+func mkBuild(n, kind int) []byte {
+	b := make([]byte, 0, n)
+	rep := func(unit string) {
+		for len(b)+len(unit) <= n {
+			b = append(b, unit...)
+		}
+		for len(b) < n { // complete to exactly n bytes with ASCII, keeping the text valid UTF-8
+			b = append(b, 'x')
 		}
 	}
-	return t
-}()
+	switch kind {
+	case 0, 1, 2, 3:
+		for i := 0; i < n; i++ {
+			b = append(b, byte(kind*85)+byte(i*7*kind))
+		}
+	case 4:
+		rep("0123456789")
+	case 5:
+		rep("abcXYZ")
+	case 6:
+		rep("0fA9")
+	case 7:
+		rep("MZXW6YTB")
+	case 8:
+		rep(" ")
+		if n > 0 {
+			b[0], b[n-1] = ' ', '\t'
+		}
+	case 9:
+		rep("\x00")
+	case 10:
+		rep("=\n")
+	case 11:
+		rep("é") // 2 bytes per character
+	case 12:
+		rep("日") // 3 bytes per character
+	case 13:
+		rep("😀") // 4 bytes per character
+	case 14:
+		rep("aé日😀")
+	default:
+		for i := 0; i < n; i++ {
+			b = append(b, 0x80+byte(i%3)) // continuation bytes only: invalid UTF-8
+		}
+	}
+	return b[:n:n]
+}
 
 func mk(n int, fill byte) []byte {
 	if n < 0 {
 		return nil
 	}
-	return mkTab[fill&3][:n:n]
+	k := [2]int{n, int(fill & 15)}
+	if v, okk := mkCache.Load(k); okk {
+		return v.([]byte)
+	}
+	v := mkBuild(n, k[1])
+	mkCache.Store(k, v)
+	return v
 }
 
 const c14Secret = "GEZDGNBVGY3TQOJQGEZDGNBVGY3TQOJQ"
@@ -176,7 +224,7 @@ func checkC14In(c c14InCase) verdict {
 }
 
 var c14In = newPart("C14", "admission",
-	"enumeration over 576 usable representative suites (32 field subsets x 6 challenge formats x 3 password hashes; digits/hash rotate): every field alone at EVERY length 0..140, nil, and 24 lengths far above the limits that alias admissible lengths modulo 2^8 / 2^16 (264, 276, 288, 320, 384, 65544, ...), others valid, observed at OCRAInput.Validate + GenerateOCRA + ValidateOCRA (error kind); every pair of fields at lengths from the boundary set {0,1,7..11,19..21,31..33,63..65,127..129,140}^2 (quick) or the full 0..140 x 0..140 square (thorough) at OCRAInput.Validate, boundary pairs also through GenerateOCRA/ValidateOCRA; oracle: independent predicate written from the statement; every (suite, lengths) tuple is distinct",
+	"enumeration over 576 usable representative suites (32 field subsets x 6 challenge formats x 3 password hashes; digits/hash rotate): every field alone at EVERY length 0..140, nil, and 24 lengths far above the limits that alias admissible lengths modulo 2^8 / 2^16 (264, 276, 288, 320, 384, 65544, ...), others valid, observed at OCRAInput.Validate + GenerateOCRA + ValidateOCRA (error kind), field contents rotating over 16 kinds (byte patterns, ASCII digits / letters / hex / base32, blanks, NUL, valid UTF-8 of 2-/3-/4-byte characters, invalid UTF-8); every pair of fields at lengths from the boundary set {0,1,7..11,19..21,31..33,63..65,127..129,140}^2 (quick) or the full 0..140 x 0..140 square (thorough) at OCRAInput.Validate, boundary pairs also through GenerateOCRA/ValidateOCRA; oracle: independent predicate written from the statement; every (suite, lengths) tuple is distinct",
 	checkC14In)
 
 func repSuites() []ref.OCRACfg {
